@@ -130,7 +130,7 @@ func (m *MTree) replace(s Site, n *refcbor.Item) {
 }
 
 var structFaultKinds = []string{"algother", "algtext", "arr2bstr", "digitstr", "rewidth", "typeswap", "elemswap", "bucketmove", "dupkey", "nilswap", "tagwrap", "untag", "indef",
-	"keyreorder", "unprot-edit", "arity", "emptybstr", "intedit", "strgrow", "param-inject"}
+	"keyreorder", "unprot-edit", "arity", "emptybstr", "intedit", "strgrow", "param-inject", "textedit"}
 
 // otherAlgs: algorithm numbers this library has no code for (registered:
 // RS256/384/512, ES256K, HMAC, AES-MAC, ...) and numbers at every head-width
@@ -619,6 +619,36 @@ func StructFault(t *tape.Tape, in []byte, kind string) (out []byte, applied stri
 			c.Data = append(c.Data, 'x')
 		}
 		m.replace(s, c)
+	case "textedit":
+		// a text string (content type, typ, a text label, a claim) cut down to
+		// or replaced by the shapes a hand-written text parser trips over:
+		// nothing before the first separator, separators only, blanks, NUL,
+		// invalid UTF-8, a tail or a head of the original
+		s, found := pickSite(t, sites, func(s Site) bool { return s.It.Major == refcbor.MTstr && !s.It.Indef })
+		if !found {
+			return nil, "", false
+		}
+		c := s.It.Clone()
+		odd := []string{";", ";x", "/", "a/", "/b", ";/", "a;b", "a/b;", "a/b; ", " ", " a/b", "a/b ", "a/b/c", "a//b", "\x00", "a/b\x00", "\xff/\xfe", "+", "a/+", "*/*", ";charset=utf-8", "a/b;;", "\t", "\n", "a\n/b"}
+		switch k := t.Choose(4, "structfault.text.how"); {
+		case k == 0 && len(c.Data) > 1:
+			c.Data = append([]byte{}, c.Data[1+t.Choose(len(c.Data)-1, "structfault.text.cut"):]...)
+		case k == 1 && len(c.Data) > 1:
+			c.Data = append([]byte{}, c.Data[:t.Choose(len(c.Data), "structfault.text.keep")]...)
+		case k == 2 && len(c.Data) > 0:
+			// every letter and digit dropped: what is left is separators
+			var kept []byte
+			for _, b := range c.Data {
+				if !(b >= 'a' && b <= 'z' || b >= 'A' && b <= 'Z' || b >= '0' && b <= '9') {
+					kept = append(kept, b)
+				}
+			}
+			c.Data = kept
+		default:
+			c.Data = []byte(odd[t.Choose(len(odd), "structfault.text.odd")])
+		}
+		c.Arg = uint64(len(c.Data))
+		m.replace(s, c)
 	default:
 		return nil, "", false
 	}
@@ -799,7 +829,12 @@ func SigChannelFault(t *tape.Tape, in []byte, kind string, donor []byte) ([]byte
 		if len(cands) == 0 {
 			return nil, "", false
 		}
-		sa.Elems[cands[t.Choose(len(cands), "sigfault.i")]].Elems[2] = refcbor.Bstr(nil)
+		// the empty byte string in any of its five spellings (40, 58 00,
+		// 59 0000, 5a 00000000, 5b 00..00): a decoder that does not insist on
+		// shortest heads reads every one of them as "no signature"
+		empty := refcbor.Bstr(nil)
+		empty.Width = widths[t.Choose(len(widths), "sigfault.empty.width")]
+		sa.Elems[cands[t.Choose(len(cands), "sigfault.i")]].Elems[2] = empty
 	case "sig.corrupt":
 		var cands []int
 		for i, e := range sa.Elems {
